@@ -28,6 +28,24 @@ class C08(PropBase):
             # as_sid=True re-reads every found entry with Sid(): the entries are Sid strings there, not uris (':' / '?')
             items_s = [e for e in items if ':' not in e and '?' not in e]
             out.append(Case('find_list_sids', [items_s, ls.search_from(rng, v, items_s)], 'find_as_sid', {}))
+            # results asked as Sid objects: entries that match but are not typeable (near-miss / unknown values) are results too
+            from props.c01 import natural as _nat0
+            odd = [e for e in items_s if e and _nat0(v, e) is None and '\n' not in e and not any(ch in e for ch in '*>,[')]
+            for e in odd[:3]:
+                segs = e.split('/')
+                i = rng.randrange(len(segs))
+                q = '/'.join(segs[:i] + ['*'] + segs[i + 1:])
+                out.append(Case('find_list_sids', [items_s, q], 'find_as_sid', {}))
+                out.append(Case('find_list', [items_s, q], 'find', {}))
+            # match() against a search without any search symbol: a fully valued Sid whose last value is an alias
+            for e in items_s:
+                last = e.split('/')[-1]
+                als = [al for al, ms in v.alias.items() if last in ms]
+                if als and _nat0(v, e) is not None:
+                    qa = '/'.join(e.split('/')[:-1] + [rng.choice(als)])
+                    out.append(Case('match', [['s', e], qa], 'match', {}))
+                    out.append(Case('find_list', [[e], qa], 'find', {}))
+                    break
             # an alias name used as an ordinary (open) value in last position: the last segment still expands
             if v.alias and rng.random() < 0.5:
                 al = rng.choice(list(v.alias))
